@@ -203,7 +203,7 @@ func driverMain(prop, tier, bin string) int {
 		path := filepath.Join(dir, h+".json")
 		os.WriteFile(path, b, 0644)
 		// replay in a fresh process
-		r, hh := runShard(bin, prop, tier, []string{"VERIF_REPLAY_CASE=" + string(v.Case)}, filepath.Join(pl.base, "replay"))
+		r, hh := runShard(bin, prop, tier, replayCaseEnv(pl.base, v.Case), filepath.Join(pl.base, "replay"))
 		ok := false
 		if hh == "" && r != nil {
 			for _, x := range r.Violations {
@@ -226,6 +226,19 @@ func driverMain(prop, tier, bin string) int {
 	return exit
 }
 
+// replayCaseEnv hands a case to the driver binary: small ones in the
+// environment, large ones (a flood of records) through a file.
+func replayCaseEnv(base string, c []byte) []string {
+	if len(c) < 60000 {
+		return []string{"VERIF_REPLAY_CASE=" + string(c)}
+	}
+	f := filepath.Join(base, fmt.Sprintf("replay-case-%d.json", time.Now().UnixNano()))
+	if err := os.WriteFile(f, c, 0644); err != nil {
+		return []string{"VERIF_REPLAY_CASE=" + string(c)}
+	}
+	return []string{"VERIF_REPLAY_CASE_FILE=" + f}
+}
+
 func driverReplayFile(rf *driverReplay) int {
 	bins := map[string]string{"C19": "csvimport.test", "C20": "console.test"}
 	bin := filepath.Join(verifDir(), "bin", bins[rf.Property])
@@ -235,7 +248,7 @@ func driverReplayFile(rf *driverReplay) int {
 		return 2
 	}
 	defer pl.cleanup()
-	r, h := runShard(bin, rf.Property, "quick", []string{"VERIF_REPLAY_CASE=" + string(rf.Case)}, filepath.Join(pl.base, "replay"))
+	r, h := runShard(bin, rf.Property, "quick", replayCaseEnv(pl.base, rf.Case), filepath.Join(pl.base, "replay"))
 	if h != "" {
 		fmt.Println("HARNESS-TROUBLE:", h, "(build the driver first: ./run.sh", rf.Property, "quick)")
 		return 2
